@@ -18,6 +18,7 @@ func init() {
 			a.c08Lifecycle("S.lifecycle-wipes")
 			a.c08Plaintext("S.plaintext-retention")
 			a.randDestinations("S.rand-dest")
+			a.endForgetsLastText("S.plaintext-retention")
 		})
 }
 
@@ -657,4 +658,57 @@ func (a *An) randDestinations(rule string) {
 		}
 	}
 	R.Check(n >= 4 && persistent >= 1, rule, "sites", "draws from the randomness source found", "", fmt.Sprintf("%d draws, %d into long-lived buffers", n, persistent))
+}
+
+// endForgetsLastText: End() drops the text remembered for retransmission whenever it ends a session (message state
+// encrypted or finished) and keeps what is queued while no session exists yet (plaintext state) — decided by
+// enumerating the paths of End per value of the message state.
+func (a *An) endForgetsLastText(rule string) {
+	R := a.R
+	f := a.MustFn("(*Conversation).End")
+	if f == nil {
+		return
+	}
+	clears := func(p *Path) bool {
+		for _, in := range p.Instrs {
+			call, ok := in.(ssa.CallInstruction)
+			if !ok {
+				continue
+			}
+			for _, ef := range a.E.InstrEffects(in) {
+				if strings.HasSuffix(a.C.abs(f, ef.Path), "resend.messages.m") || strings.HasSuffix(ef.Path, ".messages.m") {
+					_ = call
+					return true
+				}
+			}
+		}
+		return false
+	}
+	for _, st := range []struct {
+		name string
+		val  int64
+		want bool
+	}{{"plainText", 0, false}, {"encrypted", 1, true}, {"finished", 2, true}} {
+		if a.MustConst(st.name) != fmt.Sprint(st.val) {
+			R.Undec(rule, "End|const|"+st.name, "message state constants are 0,1,2", a.C.Pos(f.Pos()), st.name+" = "+a.MustConst(st.name))
+			continue
+		}
+		paths, complete := a.C.Paths(f, a.C.valOracle(valCase{"Conversation.msgState": st.val}, nil), 512)
+		good, n := complete, 0
+		for _, p := range paths {
+			if p.Ret == nil {
+				continue
+			}
+			n++
+			if clears(p) != st.want {
+				good = false
+			}
+		}
+		what := "keeps the texts queued for a session that does not exist yet"
+		if st.want {
+			what = "forgets the text remembered for retransmission"
+		}
+		R.Check(good && n > 0, rule, "End|"+st.name, "End() in state "+st.name+" "+what, a.C.Pos(f.Pos()),
+			fmt.Sprintf("not on every path (%d paths, enumeration complete=%v): a text already delivered in the ended session is sent again with the next queued text, or queued texts are lost", n, complete))
+	}
 }
